@@ -610,10 +610,12 @@ def rule_sign_render(ctx):
         paths = run_method(p, f, args=[Term("param", "n", pytype="float"), Const(fmt)], opts={"assert_forks": True})
         ctx.paths_enumerated += len(paths)
         neg_paths = 0
+        seen_render = 0
         for pa in paths:
             v = pa.value
             if pa.outcome != "return" or not (isinstance(v, Term) and v.op == "fstr"):
                 continue
+            seen_render += 1
             negs = [e.data["truth"] for e in pa.assumes() if isinstance(e.data["cond"], Term) and e.data["cond"].op == "cmp" and show(e.data["cond"]) in ("(n < 0)", "(n < 0.0)", "(n >= 0)", "(0 > n)")]
             parts = list(v.args)
             fields = [x for x in parts if not isinstance(x, str)]
@@ -661,7 +663,11 @@ def rule_sign_render(ctx):
                     bad = True
                 elif not is_float and iv.hi > 99:
                     pass  # a fractional-digit field such as tenths/hundredths is bounded by its own modulus below
-        if neg_paths == 0 and not bad:
+        if seen_render == 0:
+            # how the text is put together is not recognised at all: nothing can be said about its sign field
+            ctx.undecided("C10.SIGN", f.short, f"format {fmt}: no return path renders a formatted string the analysis recognises", fi=f)
+            bad = True
+        elif neg_paths == 0 and not bad:
             ctx.violated("C10.SIGN", f.short, f"format {fmt}: no rendering path for negative values", fi=f, text="render-no-negative-path")
             bad = True
     # integer fields directly after a ':' must be < 60
